@@ -314,7 +314,8 @@ w_v(int append)
 static void
 w_sd(int layout)
 {
-    /* layout: 0 contiguous, 1 unlimited, 2 chunked, 3 chunked+deflate, 4 compressed (deflate), 5 external */
+    /* layout: 0 contiguous, 1 unlimited, 2 chunked, 3 chunked+deflate, 4 compressed (deflate), 5 external,
+       6 RLE, 7 skipping Huffman, 8 n-bit, 9 n-bit with sign extension */
     api("SDstart");
     int32 sd = SDstart(F1, DFACC_CREATE);
     CK("SDstart", sd == FAIL);
@@ -342,6 +343,17 @@ w_sd(int layout)
             api("SDsetcompress");
             CK("SDsetcompress", SDsetcompress(sds, COMP_CODE_DEFLATE, &ci) == FAIL);
         }
+        else if (layout == 6 || layout == 7) {
+            comp_info ci;
+            memset(&ci, 0, sizeof ci);
+            ci.skphuff.skp_size = 2;
+            api("SDsetcompress");
+            CK("SDsetcompress", SDsetcompress(sds, layout == 6 ? COMP_CODE_RLE : COMP_CODE_SKPHUFF, &ci) == FAIL);
+        }
+        else if (layout == 8 || layout == 9) {
+            api("SDsetnbitdataset");
+            CK("SDsetnbitdataset", SDsetnbitdataset(sds, 11, 12, layout == 9, FALSE) == FAIL);
+        }
         else if (layout == 5) {
             api("SDsetexternalfile");
             CK("SDsetexternalfile", SDsetexternalfile(sds, FX, 0) == FAIL);
@@ -357,7 +369,7 @@ w_sd(int layout)
         CK("SDsetdimscale", dim == FAIL || SDsetdimscale(dim, 3, DFNT_INT16, scale) == FAIL);
         int16 v[12];
         for (int i = 0; i < 12; i++)
-            v[i] = (int16)(100 + i);
+            v[i] = (int16)((layout == 9 && (i & 1)) ? -(100 + i) : 100 + i);
         int32 st[2] = {0, 0}, cnt[2] = {4, 3};
         api("SDwritedata");
         CK("SDwritedata", SDwritedata(sds, st, NULL, cnt, v) == FAIL);
@@ -380,7 +392,7 @@ w_sd(int layout)
     if (sds != FAIL) {
         int16 w[3] = {-1, -2, -3};
         int32 st[2] = {layout == 1 ? 5 : 2, 0}, cnt[2] = {1, 3};
-        if (layout != 4) { /* rewriting inside a compressed non-chunked dataset is not a supported operation */
+        if (layout != 4 && layout < 6) { /* rewriting inside a compressed non-chunked dataset is not a supported operation */
             api("SDwritedata");
             CK("SDwritedata", SDwritedata(sds, st, NULL, cnt, w) == FAIL);
         }
@@ -422,7 +434,14 @@ w_gr(int chunked)
         int32 ri = GRcreate(gr, "img", 3, DFNT_UINT8, MFGR_INTERLACE_PIXEL, dims);
         CK("GRcreate", ri == FAIL);
         if (ri != FAIL) {
-            if (chunked) {
+            if (chunked >= 2) {
+                comp_info ci;
+                memset(&ci, 0, sizeof ci);
+                ci.deflate.level = 6;
+                api("GRsetcompress");
+                CK("GRsetcompress", GRsetcompress(ri, chunked == 2 ? COMP_CODE_RLE : COMP_CODE_DEFLATE, &ci) == FAIL);
+            }
+            else if (chunked) {
                 HDF_CHUNK_DEF cd;
                 memset(&cd, 0, sizeof cd);
                 cd.chunk_lengths[0] = 2;
@@ -546,6 +565,378 @@ w_an(void)
     CK("Hclose", Hclose(fid) == FAIL);
 }
 
+static void
+w_h_reopen(int cache)
+{
+    uint8 d[64];
+    api("Hopen");
+    int32 fid = Hopen(F1, DFACC_CREATE, 4);
+    CK("Hopen", fid == FAIL);
+    if (fid == FAIL)
+        return;
+    for (int i = 0; i < 5; i++) {
+        fill(d, 12, i);
+        api("Hputelement");
+        CK("Hputelement", Hputelement(fid, 300, (uint16)(i + 1), d, 12) != 12);
+    }
+    api("Hclose");
+    CK("Hclose", Hclose(fid) == FAIL);
+    /* second session: read-write on the existing file */
+    api("Hopen");
+    fid = Hopen(F1, DFACC_RDWR, 0);
+    CK("Hopen", fid == FAIL);
+    if (fid == FAIL)
+        return;
+    if (!cache) {
+        api("Hcache");
+        CK("Hcache", Hcache(fid, 0) == FAIL);
+    }
+    fill(d, 12, 9);
+    api("Hputelement");
+    CK("Hputelement", Hputelement(fid, 300, 2, d, 12) != 12); /* overwrite in place */
+    api("Hputelement");
+    CK("Hputelement", Hputelement(fid, 301, 1, d, 7) != 7); /* new element, new descriptor block */
+    api("Hdeldd");
+    CK("Hdeldd", Hdeldd(fid, 300, 4) == FAIL);
+    api("Hdupdd");
+    CK("Hdupdd", Hdupdd(fid, 302, 1, 300, 1) == FAIL);
+    api("Hdeldd");
+    CK("Hdeldd", Hdeldd(fid, 300, 5) == FAIL);
+    fill(d, 20, 11);
+    api("Hputelement");
+    CK("Hputelement", Hputelement(fid, 300, 5, d, 20) != 20); /* the reference number is used again for longer data */
+    api("Hclose");
+    CK("Hclose", Hclose(fid) == FAIL);
+    /* third session: read everything */
+    api("Hopen");
+    fid = Hopen(F1, DFACC_READ, 0);
+    CK("Hopen", fid == FAIL);
+    if (fid == FAIL)
+        return;
+    static const uint16 TR[][2] = {{300, 1}, {300, 2}, {300, 3}, {300, 5}, {301, 1}, {302, 1}};
+    for (int i = 0; i < 6; i++) {
+        memset(d, 0, sizeof d);
+        api("Hlength");
+        int32 len = Hlength(fid, TR[i][0], TR[i][1]);
+        CK("Hlength", len == FAIL);
+        api("Hgetelement");
+        int32 r = Hgetelement(fid, TR[i][0], TR[i][1], d);
+        CK("Hgetelement", r == FAIL);
+        if (r != FAIL)
+            OUT(d, r);
+    }
+    api("Hnumber");
+    int32 nn = Hnumber(fid, DFTAG_WILDCARD);
+    CK("Hnumber", nn == FAIL);
+    if (nn != FAIL)
+        OUT(&nn, 4);
+    api("Hclose");
+    CK("Hclose", Hclose(fid) == FAIL);
+}
+
+static void
+w_v_attrs(void)
+{
+    api("Hopen");
+    int32 fid = Hopen(F1, DFACC_CREATE, 16);
+    CK("Hopen", fid == FAIL);
+    if (fid == FAIL)
+        return;
+    api("Vstart");
+    CK("Vstart", Vstart(fid) == FAIL);
+    api("Vattach");
+    int32 vg = Vattach(fid, -1, "w");
+    CK("Vattach", vg == FAIL);
+    int32 vgref = 0;
+    if (vg != FAIL) {
+        vgref = VQueryref(vg);
+        api("Vsetname");
+        CK("Vsetname", Vsetname(vg, "many") == FAIL);
+        api("Vsetclass");
+        CK("Vsetclass", Vsetclass(vg, "cls") == FAIL);
+        for (int i = 0; i < 20; i++) {
+            api("Vaddtagref");
+            CK("Vaddtagref", Vaddtagref(vg, 300, (int32)(i + 1)) == FAIL);
+        }
+        int16 av[3] = {1, -2, 3};
+        api("Vsetattr");
+        CK("Vsetattr", Vsetattr(vg, "ga", DFNT_INT16, 3, av) == FAIL);
+        api("Vsetattr");
+        CK("Vsetattr", Vsetattr(vg, "gb", DFNT_CHAR8, 4, "text") == FAIL);
+    }
+    api("VSattach");
+    int32 vs = VSattach(fid, -1, "w");
+    CK("VSattach", vs == FAIL);
+    int32 vsref = 0;
+    if (vs != FAIL) {
+        vsref = VSQueryref(vs);
+        api("VSfdefine");
+        CK("VSfdefine", VSfdefine(vs, "p", DFNT_UINT8, 2) == FAIL);
+        CK("VSfdefine", VSfdefine(vs, "q", DFNT_INT32, 1) == FAIL);
+        api("VSsetfields");
+        CK("VSsetfields", VSsetfields(vs, "p,q") == FAIL);
+        uint8 rec[4 * 6];
+        fill(rec, sizeof rec, 2);
+        api("VSwrite");
+        CK("VSwrite", VSwrite(vs, rec, 4, FULL_INTERLACE) != 4);
+        float32 fa = 2.5f;
+        api("VSsetattr");
+        CK("VSsetattr", VSsetattr(vs, 1, "fa", DFNT_FLOAT32, 1, &fa) == FAIL);
+        api("VSsetattr");
+        CK("VSsetattr", VSsetattr(vs, 0, "fb", DFNT_UINT8, 2, rec) == FAIL);
+        api("VSdetach");
+        CK("VSdetach", VSdetach(vs) == FAIL);
+    }
+    if (vg != FAIL) {
+        api("Vdetach");
+        CK("Vdetach", Vdetach(vg) == FAIL);
+    }
+    api("Vend");
+    CK("Vend", Vend(fid) == FAIL);
+    api("Hclose");
+    CK("Hclose", Hclose(fid) == FAIL);
+    api("Hopen");
+    fid = Hopen(F1, DFACC_READ, 0);
+    CK("Hopen", fid == FAIL);
+    if (fid == FAIL)
+        return;
+    api("Vstart");
+    CK("Vstart", Vstart(fid) == FAIL);
+    api("Vattach");
+    vg = vgref ? Vattach(fid, vgref, "r") : FAIL;
+    CK("Vattach", vg == FAIL);
+    if (vg != FAIL) {
+        int32 tags[32], refs[32];
+        memset(tags, 0, sizeof tags);
+        memset(refs, 0, sizeof refs);
+        api("Vgettagrefs");
+        int32 n = Vgettagrefs(vg, tags, refs, 32);
+        CK("Vgettagrefs", n == FAIL);
+        if (n != FAIL) {
+            OUT(tags, sizeof tags);
+            OUT(refs, sizeof refs);
+        }
+        int16 av[3] = {0, 0, 0};
+        api("Vgetattr");
+        int r = Vgetattr(vg, 0, av);
+        CK("Vgetattr", r == FAIL);
+        if (r != FAIL)
+            OUT(av, sizeof av);
+        api("Vdetach");
+        CK("Vdetach", Vdetach(vg) == FAIL);
+    }
+    api("VSattach");
+    vs = vsref ? VSattach(fid, vsref, "r") : FAIL;
+    CK("VSattach", vs == FAIL);
+    if (vs != FAIL) {
+        float32 fa = 0;
+        api("VSgetattr");
+        int r = VSgetattr(vs, 1, 0, &fa);
+        CK("VSgetattr", r == FAIL);
+        if (r != FAIL)
+            OUT(&fa, 4);
+        uint8 rec[4 * 6];
+        memset(rec, 0, sizeof rec);
+        api("VSsetfields");
+        CK("VSsetfields", VSsetfields(vs, "q") == FAIL);
+        api("VSread");
+        int32 n = VSread(vs, rec, 4, FULL_INTERLACE);
+        CK("VSread", n == FAIL);
+        if (n != FAIL)
+            OUT(rec, n * 4);
+        api("VSdetach");
+        CK("VSdetach", VSdetach(vs) == FAIL);
+    }
+    api("Vend");
+    CK("Vend", Vend(fid) == FAIL);
+    api("Hclose");
+    CK("Hclose", Hclose(fid) == FAIL);
+}
+
+static void
+w_legacy(int which)
+{
+    /* single-file interfaces: every call opens and closes the file itself */
+    uint8 img[8 * 6 * 3], pal[768], buf[8 * 6 * 3];
+    fill(img, sizeof img, 3);
+    fill(pal, sizeof pal, 8);
+    if (which == 0) { /* DFR8 */
+        DFR8restart();
+        api("DFR8setpalette");
+        CK("DFR8setpalette", DFR8setpalette(pal) == FAIL);
+        api("DFR8putimage");
+        CK("DFR8putimage", DFR8putimage(F1, img, 8, 6, COMP_NONE) == FAIL);
+        api("DFR8addimage");
+        CK("DFR8addimage", DFR8addimage(F1, img + 48, 8, 6, COMP_RLE) == FAIL);
+        for (int i = 0; i < 2; i++) {
+            int32 w = 0, h = 0;
+            int   ispal = 0;
+            api("DFR8getdims");
+            int r = DFR8getdims(F1, &w, &h, &ispal);
+            CK("DFR8getdims", r == FAIL);
+            if (r == FAIL)
+                break;
+            memset(buf, 0, sizeof buf);
+            memset(pal, 0, sizeof pal);
+            api("DFR8getimage");
+            r = DFR8getimage(F1, buf, 8, 6, pal);
+            CK("DFR8getimage", r == FAIL);
+            if (r != FAIL) {
+                OUT(buf, 48);
+                OUT(pal, 768);
+            }
+        }
+    }
+    else if (which == 1) { /* DF24 */
+        DF24restart();
+        api("DF24setil");
+        CK("DF24setil", DF24setil(DFIL_PIXEL) == FAIL);
+        api("DF24putimage");
+        CK("DF24putimage", DF24putimage(F1, img, 8, 6) == FAIL);
+        api("DF24setil");
+        CK("DF24setil", DF24setil(DFIL_PLANE) == FAIL);
+        api("DF24addimage");
+        CK("DF24addimage", DF24addimage(F1, img, 8, 6) == FAIL);
+        DF24restart();
+        for (int i = 0; i < 2; i++) {
+            int32 w = 0, h = 0;
+            int   il = 0;
+            api("DF24getdims");
+            int r = DF24getdims(F1, &w, &h, &il);
+            CK("DF24getdims", r == FAIL);
+            if (r == FAIL)
+                break;
+            memset(buf, 0, sizeof buf);
+            api("DF24getimage");
+            r = DF24getimage(F1, buf, 8, 6);
+            CK("DF24getimage", r == FAIL);
+            if (r != FAIL)
+                OUT(buf, sizeof buf);
+        }
+    }
+    else if (which == 2) { /* DFSD */
+        int32   dims[2] = {3, 4};
+        float32 v[12], scale[4] = {1, 2, 3, 4}, out[12];
+        for (int i = 0; i < 12; i++)
+            v[i] = (float32)(i * 1.5);
+        DFSDrestart();
+        DFSDclear();
+        api("DFSDsetdims");
+        CK("DFSDsetdims", DFSDsetdims(2, dims) == FAIL);
+        api("DFSDsetNT");
+        CK("DFSDsetNT", DFSDsetNT(DFNT_FLOAT32) == FAIL);
+        api("DFSDsetdatastrs");
+        CK("DFSDsetdatastrs", DFSDsetdatastrs("lab", "unit", "fmt", "coord") == FAIL);
+        api("DFSDsetdimscale");
+        CK("DFSDsetdimscale", DFSDsetdimscale(2, 4, scale) == FAIL);
+        api("DFSDputdata");
+        CK("DFSDputdata", DFSDputdata(F1, 2, dims, v) == FAIL);
+        api("DFSDadddata");
+        CK("DFSDadddata", DFSDadddata(F1, 2, dims, v) == FAIL);
+        DFSDrestart();
+        for (int i = 0; i < 2; i++) {
+            int   rank = 0;
+            int32 sz[2] = {0, 0};
+            api("DFSDgetdims");
+            int r = DFSDgetdims(F1, &rank, sz, 2);
+            CK("DFSDgetdims", r == FAIL);
+            if (r == FAIL)
+                break;
+            memset(out, 0, sizeof out);
+            api("DFSDgetdata");
+            r = DFSDgetdata(F1, 2, dims, out);
+            CK("DFSDgetdata", r == FAIL);
+            if (r != FAIL)
+                OUT(out, sizeof out);
+            char l[32], u[32], f[32], c[32];
+            memset(l, 0, 32);
+            memset(u, 0, 32);
+            memset(f, 0, 32);
+            memset(c, 0, 32);
+            api("DFSDgetdatastrs");
+            r = DFSDgetdatastrs(l, u, f, c);
+            CK("DFSDgetdatastrs", r == FAIL);
+            if (r != FAIL) {
+                OUT(l, 32);
+                OUT(u, 32);
+            }
+        }
+    }
+    else if (which == 3) { /* DFAN + DFP */
+        char txt[40];
+        DFANclear();
+        api("Hopen");
+        int32 fid = Hopen(F1, DFACC_CREATE, 4);
+        CK("Hopen", fid == FAIL);
+        if (fid == FAIL)
+            return;
+        api("Hputelement");
+        CK("Hputelement", Hputelement(fid, 300, 1, img, 10) != 10);
+        api("DFANaddfid");
+        CK("DFANaddfid", DFANaddfid(fid, "file label") == FAIL);
+        api("DFANaddfds");
+        CK("DFANaddfds", DFANaddfds(fid, "file description", 16) == FAIL);
+        api("Hclose");
+        CK("Hclose", Hclose(fid) == FAIL);
+        api("DFANputlabel");
+        CK("DFANputlabel", DFANputlabel(F1, 300, 1, "object label") == FAIL);
+        api("DFANputdesc");
+        CK("DFANputdesc", DFANputdesc(F1, 300, 1, "object description", 18) == FAIL);
+        api("DFANputlabel");
+        CK("DFANputlabel", DFANputlabel(F1, 300, 1, "relabelled") == FAIL);
+        memset(txt, 0, sizeof txt);
+        api("DFANgetlabel");
+        int r = DFANgetlabel(F1, 300, 1, txt, 39);
+        CK("DFANgetlabel", r == FAIL);
+        if (r != FAIL)
+            OUT(txt, 40);
+        api("DFANgetdesclen");
+        int32 dl = DFANgetdesclen(F1, 300, 1);
+        CK("DFANgetdesclen", dl == FAIL);
+        memset(txt, 0, sizeof txt);
+        api("DFANgetdesc");
+        r = DFANgetdesc(F1, 300, 1, txt, 39);
+        CK("DFANgetdesc", r == FAIL);
+        if (r != FAIL)
+            OUT(txt, 40);
+        api("Hopen");
+        fid = Hopen(F1, DFACC_READ, 0);
+        CK("Hopen", fid == FAIL);
+        if (fid != FAIL) {
+            memset(txt, 0, sizeof txt);
+            api("DFANgetfid");
+            int32 n = DFANgetfid(fid, txt, 39, 1);
+            CK("DFANgetfid", n == FAIL);
+            if (n != FAIL)
+                OUT(txt, 40);
+            api("Hclose");
+            CK("Hclose", Hclose(fid) == FAIL);
+        }
+    }
+    else { /* DFP */
+        DFPrestart();
+        api("DFPputpal");
+        CK("DFPputpal", DFPputpal(F1, pal, 0, "w") == FAIL);
+        fill(pal, sizeof pal, 12);
+        api("DFPaddpal");
+        CK("DFPaddpal", DFPaddpal(F1, pal) == FAIL);
+        DFPrestart();
+        for (int i = 0; i < 2; i++) {
+            memset(pal, 0, sizeof pal);
+            api("DFPgetpal");
+            int r = DFPgetpal(F1, pal);
+            CK("DFPgetpal", r == FAIL);
+            if (r != FAIL)
+                OUT(pal, 768);
+        }
+        api("DFPnpals");
+        int np = DFPnpals(F1);
+        CK("DFPnpals", np == FAIL);
+        if (np != FAIL)
+            OUT(&np, sizeof np);
+    }
+}
+
 typedef struct {
     const char *name;
     int         kind, arg1, arg2;
@@ -558,6 +949,11 @@ static const wl_t WL[] = {
     {"SD-contiguous", 4, 0, 0}, {"SD-unlimited", 4, 1, 0}, {"SD-chunked", 4, 2, 0}, {"SD-chunked+deflate", 4, 3, 0}, {"SD-deflate", 4, 4, 0}, {"SD-external", 4, 5, 0},
     {"GR-image+palette", 5, 0, 0}, {"GR-chunked", 5, 1, 0},
     {"AN", 6, 0, 0},
+    {"H-reopen-rdwr(cache on)", 7, 1, 0}, {"H-reopen-rdwr(cache off)", 7, 0, 0},
+    {"V-attrs+20-members", 8, 0, 0},
+    {"SD-rle", 4, 6, 0}, {"SD-skphuff", 4, 7, 0}, {"SD-nbit", 4, 8, 0}, {"SD-nbit-signext", 4, 9, 0},
+    {"GR-rle", 5, 2, 0}, {"GR-deflate", 5, 3, 0},
+    {"DFR8", 9, 0, 0}, {"DF24", 9, 1, 0}, {"DFSD", 9, 2, 0}, {"DFAN", 9, 3, 0}, {"DFP", 9, 4, 0},
 };
 #define NWL ((int)(sizeof WL / sizeof WL[0]))
 
@@ -580,6 +976,9 @@ run_workload(int w)
         case 4: w_sd(WL[w].arg1); break;
         case 5: w_gr(WL[w].arg1); break;
         case 6: w_an(); break;
+        case 7: w_h_reopen(WL[w].arg1); break;
+        case 8: w_v_attrs(); break;
+        case 9: w_legacy(WL[w].arg1); break;
     }
     api("(end)");
 }
@@ -589,6 +988,7 @@ typedef struct {
     int  w;
     long k;
     int  variant, sticky, kind;
+    long k2; /* -1, or the index of a second, independent plain failure (thorough tier) */
 } plan_t;
 static plan_t *plans;
 static long    nplans;
@@ -596,22 +996,40 @@ static struct {
     long     ncalls;
     uint64_t outdig, filehash;
 } ref[64];
+static long pair_last_k2[64]; /* largest second index enumerated per workload */
+#define PAIR_SLACK 12
 
 static void
 run_plan(long idx, void *ctx)
 {
     (void)ctx;
     plan_t *p      = &plans[idx];
-    int     cfg[4] = {p->w, (int)p->k, p->variant, p->sticky};
-    mc_set_config(cfg, 4, "workload=%s", WL[p->w].name);
-    mc_set_case("workload %s: stdio call #%ld (%s) fails (%s%s)", WL[p->w].name, p->k, vfs_kind_name[p->kind],
-                p->variant ? "short count" : "error", p->sticky ? ", and every later call" : "");
+    int     cfg[5] = {p->w, (int)p->k, p->variant, p->sticky, (int)p->k2};
+    mc_set_config(cfg, 5, "workload=%s", WL[p->w].name);
+    if (p->k2 >= 0)
+        mc_set_case("workload %s: stdio call #%ld (%s) fails (%s) and call #%ld of that run fails too", WL[p->w].name, p->k, vfs_kind_name[p->kind],
+                    p->variant ? "short count" : "error", p->k2);
+    else
+        mc_set_case("workload %s: stdio call #%ld (%s) fails (%s%s)", WL[p->w].name, p->k, vfs_kind_name[p->kind],
+                    p->variant ? "short count" : "error", p->sticky ? ", and every later call" : "");
     vfs_fault_set(p->k, p->variant, p->sticky, 0);
+    if (p->k2 >= 0)
+        vfs_fault_set2(p->k2);
     long uac0 = vfs_use_after_close;
     int  asan0 = mc_asan_seen();
     run_workload(p->w);
-    long fired = vfs_fault.fired;
+    long fired = vfs_fault.fired, fired2 = vfs_fault.fired2, ncalls = vfs_ncalls;
     vfs_fault_clear();
+    if (p->k2 >= 0) {
+        if (!fired2) {
+            /* the run ended before call #k2: nothing new compared with the single-fault run */
+            mc_count("pair_second_fault_not_reached", 1);
+            if (p->k2 == pair_last_k2[p->w] && ncalls > p->k2)
+                mc_count("pair_horizon_too_short", 1); /* never expected: reported as not exhaustive */
+            return;
+        }
+        mc_count("pair_both_faults_fired", 1);
+    }
     char sig[200];
     if (vfs_use_after_close != uac0) {
         snprintf(sig, sizeof sig, "use-after-close:%s:%s", vfs_kind_name[p->kind], fault_api ? fault_api : "?");
@@ -664,7 +1082,7 @@ C16_main(const char *tier, const char *replay)
         ref[cfg[0]].filehash = vfs_hash_all();
         printf("replay C16: workload %s, call #%d, variant %d, sticky %d (fault-free run: any_fail=%d)\n", WL[cfg[0]].name, cfg[1], cfg[2], cfg[3], any_fail);
         static plan_t one;
-        one    = (plan_t){cfg[0], cfg[1], cfg[2], cfg[3], 0};
+        one    = (plan_t){cfg[0], cfg[1], cfg[2], cfg[3], 0, ncfg >= 5 ? cfg[4] : -1};
         plans  = &one;
         nplans = 1;
         run_plan(0, NULL);
@@ -703,21 +1121,51 @@ C16_main(const char *tier, const char *replay)
                         cap   = cap ? cap * 2 : 4096;
                         plans = realloc(plans, (size_t)cap * sizeof *plans);
                     }
-                    plans[nplans++] = (plan_t){w, k, v, st, kind};
+                    plans[nplans++] = (plan_t){w, k, v, st, kind, -1};
                 }
         }
         mc_sample("workload %s: %ld stdio calls in the fault-free run", WL[w].name, ref[w].ncalls);
         mc_count("stdio_calls_total", ref[w].ncalls);
     }
-    (void)thorough;
     mc_round_begin("single fault at every call index x variant x {single,sticky}");
     mc_foreach(nplans, run_plan, NULL, 1, 60);
     mc_round_end();
     mc_count("evaluations", nplans);
+    if (thorough && !mc_deadline_hit()) {
+        /* deviation bound 2: a first failure at k1 (error, or short count), then a second plain failure at every
+           later index k2 of THAT run; k2 runs to the fault-free length + slack, and the run at the largest k2 shows
+           (pair_horizon_too_short == 0) that no faulted run is longer than what was enumerated */
+        long n1 = nplans, npairs = 0;
+        for (long i = 0; i < n1; i++) {
+            plan_t p = plans[i];
+            if (p.sticky)
+                continue;
+            long last = ref[p.w].ncalls + PAIR_SLACK;
+            pair_last_k2[p.w] = last;
+            for (long k2 = p.k + 1; k2 <= last; k2++) {
+                if (nplans + 1 > cap) {
+                    cap   = cap * 2;
+                    plans = realloc(plans, (size_t)cap * sizeof *plans);
+                }
+                p.k2            = k2;
+                plans[nplans++] = p;
+                npairs++;
+            }
+        }
+        /* move the pair plans to the front so that mc_foreach indexes them directly */
+        memmove(plans, plans + n1, (size_t)npairs * sizeof *plans);
+        nplans = npairs;
+        mc_round_begin("two faults: every (k1, variant) x every later index k2 of the faulted run");
+        mc_foreach(nplans, run_plan, NULL, 1, 60);
+        mc_round_end();
+        mc_count("evaluations", nplans);
+        if (mc_get("pair_horizon_too_short"))
+            mc_harness_error("a doubly faulted run was longer than the enumerated horizon: raise PAIR_SLACK");
+    }
     mc_rule("%d workloads (H basic / append+promotion / linked / external / RLE / deflate, Vdata+Vgroup incl. linked-block append, SD contiguous / "
             "unlimited / chunked / chunked+deflate / deflate / external, GR image+palette / chunked, AN); for every index k of a stdio call in the "
             "fault-free run, every applicable failure (error return; additionally short count for fread/fwrite) as a single fault and as a sticky fault. "
-            "distinct = distinct (workload, first API call that reported the failure) outcomes.",
-            NWL);
+            "%s distinct = distinct (workload, first API call that reported the failure) outcomes.",
+            NWL, thorough ? "Thorough: additionally every pair of faults (first as before, second a plain failure at every later call index of the faulted run)." : "");
     return 0;
 }
